@@ -239,6 +239,6 @@ def run(repo: Repo, rep: Report, tier: str) -> None:
     # ---- borrowed: the two reactors keep evaluating their timers --------------------------------------
     from ..delegate import delegate
     rep.rule("artim-every-pass", "the provider's loop tests the ARTIM timer on every pass, ahead of and independent of transport activity (C05's reactor-order rule)")
-    delegate(repo, rep, tier, "C05", ("reactor-order",), "artim-every-pass", "a peer that keeps the transport busy (streams PDUs after an abort / reject / release response) starves the ARTIM test: the provider thread, kill() and the socket outlive the ACSE timeout")
+    delegate(repo, rep, tier, "C05", ("reactor-order", "artim-progress"), "artim-every-pass", "a peer that keeps the transport busy (streams PDUs after an abort / reject / release response) starves the ARTIM test: the provider thread, kill() and the socket outlive the ACSE timeout")
     rep.rule("reactor-resumed", "every DIMSE exchange that paused the association reactor resumes it before surfacing its final result (C24's checkpoint rule)")
     delegate(repo, rep, tier, "C24", ("checkpoint",), "reactor-resumed", "while the reactor is paused the network (idle) timeout is not enforced and a silent peer keeps the association, its provider thread and the socket alive indefinitely")
